@@ -13,7 +13,7 @@ COMMON_NOTE = (
 TECH = ("machine-checked proof in Rocq (Coq 8.16.1) over a Gallina model of the contracts; model tied to /repo by a "
         "differential correspondence check (model evaluated by vm_compute vs. real contracts on cw-multi-test)")
 
-def P(props, families, text, note=COMMON_NOTE, **kw):
+def P(props, families, text=None, note=COMMON_NOTE, **kw):
     d = {"props": props, "families": families, "level_text": text, "level_note": note, "technique": TECH,
          "assumptions": ["cw-multi-test 2.4.0 / StargateMock as chain semantics", "library arithmetic modelled from source",
                          "message payloads range over their Rust types (Uint128, Decimal, u64, u32, u8)"]}
@@ -21,6 +21,57 @@ def P(props, families, text, note=COMMON_NOTE, **kw):
     return d
 
 PROPS = {
+    "C01": P("Props/C01.v", [("pool-scn", 48, 600), ("chain-pool", 24, 300), ("fault-scn", 16, 200)],
+        "PARTIAL. Proved per handler for all inputs: the flow of funds between reserves and messages (swap and every router hop: "
+        "whole offer in, exactly return + protocol + burn out; multi-asset deposit: every attached coin added to its reserve, "
+        "only freshly minted LP leaves, to the receiver or via the pool manager to the farm manager; withdrawal: sends exactly the "
+        "refunds it subtracts, burns exactly the LP received; rejected operations change nothing). NOT proved: the inductive "
+        "invariant 'bank balance >= sum of reserves' over all histories. It is decided on every run on the implementation's own "
+        "snapshots by the Coq-defined monitor mon_C01 (after every operation of every generated history, pools sharing denoms, LP "
+        "denoms used as pool assets, donations, odd single-asset deposits, routes, faults) plus the correspondence of all balances.",
+        monitor="mon_C01"),
+    "C02": P("Props/C02.v", [("pool-scn", 48, 600), ("chain-pool", 32, 400)],
+        "Constant product: proved (mint = min of the two proportional shares, never more than proportional in either asset, hence "
+        "x*y/S^2 never decreases through a deposit; first deposit isqrt(a*b)); withdrawals (both pool types): the handler pays "
+        "exactly floor(reserve*burned/supply) per asset (after the repair fix: c886314; at most pro-rata, at least pro-rata minus "
+        "one unit, any LP amount worth >= 1 unit redeemable) and burns exactly the LP received; LP is minted only by deposits and "
+        "burned only by withdrawals (no other message emits a token-factory mint/burn). PARTIAL: the stableswap mint vs. exact "
+        "invariant growth and 'supply never below the locked minimum over all histories' are not theorems (correspondence only; "
+        "stableswap rounding is known finding F-ss-round)."),
+    "C05": P("Props/C05.v", [("farm-scn", 48, 600), ("fault-scn", 24, 300), ("manyfarms-scn", 8, 100)],
+        "PARTIAL. Proved per handler for all inputs: what each farm-manager message adds to / removes from the recorded obligations "
+        "and what it sends (positions created/topped up with exactly the attached LP; withdrawals pay at most the recorded amount "
+        "and delete the position; farm creation/expansion/closing; claims never raise claimed beyond the funded amount). NOT "
+        "proved: the inductive custody invariant over all histories. It is decided on every run on the implementation's own "
+        "snapshots by the Coq-defined monitor mon_C05 (balance >= locked LP + unclaimed budgets per denom after every operation, "
+        "incl. reward denom = LP denom, emergency exits with several farm owners, failing refunds) plus the correspondence.",
+        monitor="mon_C05"),
+    "C06": P("Props/C06.v", [("farm-scn", 64, 800), ("manyfarms-scn", 16, 200)],
+        "PARTIAL. Proved: every reward entry is floor(rate*share) for an epoch strictly after the claimant's cursor, from the farm's "
+        "start, before its end, within the farm's remaining budget; claimed amounts only grow and never exceed the funded amount; a "
+        "claim moves the cursor to its bound (no epoch paid twice). Not proved: sum over users <= emission per farm-epoch and "
+        "'no claim makes another user's rightful claim fail' — false of the unchanged code in the recorded classes F-until, F-sat, "
+        "F-clamp (witness scripts replayed on the implementation every run) and otherwise covered by the correspondence only."),
+    "C07": P("Props/C07.v", [("farm-scn", 64, 800), ("manyfarms-scn", 16, 200)],
+        "PARTIAL. Proved: the per farm-epoch formula (floor(rate * user weight / total weight), carry-forward weights, rounding "
+        "bounds); Rewards query = what an immediate Claim pays for users staking one LP token; cursor movement. Refuted with "
+        "witnesses replayed on the implementation (F-until, F-first-epoch). Not proved: schedule independence outside those "
+        "classes, query = claim with several LP tokens (the farm scenarios query Rewards before claims and split claims with "
+        "until_epoch; compared with the model on every run)."),
+    "C14": P("Props/C14.v", [("pool-scn", 40, 500), ("fault-scn", 32, 400)],
+        "PARTIAL. Proved: the first step only records the buffer and emits ONE on-success sub-message (swap floor(amount/2) to "
+        "itself); refused on empty and >2-asset pools; locks only for the sender; the reply requires the pool manager's balances "
+        "to be exactly what that swap must have produced, clears the buffer and deposits exactly the kept half plus the swap "
+        "proceeds for the chosen receiver (the ordinary two-asset deposit); no other message touches the buffer; any failure "
+        "rejects the whole transaction (nothing changes); rejected when swaps are disabled. Not one theorem: end-to-end equality "
+        "with the manual two-step world — covered by the correspondence (odd/even amounts, locks, faults at every internal call)."),
+    "C19": P("Props/C19.v", [("pool-scn", 64, 800), ("chain-pool", 16, 200)],
+        "PARTIAL. Proved: Newton results through the swap path always meet the stopping test, an exhausted budget is ConvergeError; "
+        "output + fees never exceed the reserve; the exact-invariant oracle (integer polynomial, strictly increasing) is sound. "
+        "Refuted with kernel-evaluated witnesses replayed on the implementation: 2-unit accuracy (F-ss-D: D stops at 1.0 whole "
+        "token) and the deposit-side D returned unconverged (F-d-core). Not proved: a universal accuracy bound for converged "
+        "results in the supported range (a convergence analysis of two cascaded integer Newton iterations is out of reach here); "
+        "that residue is covered only by the correspondence with the pinned model."),
     "C03": P("Props/C03.v", [("pool-scn", 48, 600), ("chain-pool", 32, 400)],
         "Constant product: full proof. For every executed swap (perform_swap is the single code path of direct swaps, every router "
         "hop and the internal swap of single-asset deposits), for all reserves, offers and fee settings incl. zero, x*y computed "
@@ -77,7 +128,7 @@ PROPS = {
         "included), ownership proposals and renouncements on all four contracts are accepted only from the current owner and only "
         "without funds; ownership changes only by accept-by-pending (before expiry) or renounce-by-owner; rejected => no state "
         "change; farm expansion / closing / position roles; pool manager's owner record untouched by any other message."),
-    "C16": P("Props/C16.v", [("pool-scn", 40, 500), ("chain-pool", 40, 500)],
+    "C16": P("Props/C16.v", [("pool-scn", 40, 500), ("chain-pool", 40, 500)], monitor="mon_C16", text=
         "Full proof: everything a successful CreatePool has checked (2 assets CP / 2-4 distinct assets + amp > 0 stableswap, "
         "decimals length, each fee < 100%, total <= 20%, identifier, fees paid exactly with no extra funds) and the only messages "
         "it emits; the new pool record; over ALL histories (induction over the chain interpreter, faults included) no pool is "
@@ -105,4 +156,6 @@ PROPS = {
         "succeeds, removes exactly that farm, and the bank either performed exactly the refund to the farm's owner or did not "
         "move. The platform's atomicity itself is the chain model's (cw-multi-test), validated by the fault family."),
 }
+for _pid in ("C02", "C03", "C06", "C07", "C10", "C11", "C12", "C13"):
+    PROPS[_pid]["extra_props"] = ["Props/Findings.v"]
 NOT_APPLICABLE = {}
